@@ -223,7 +223,10 @@ func (c07Engine) Exec(t *testing.T, cc any) *simrt.Result {
 		}
 		for _, k := range cls {
 			if !k.ScriptDone.Load() {
-				sim.Res.Harness = "script of " + k.Name + " did not finish"
+				// every reader is active and nothing moves any more, yet this client
+				// still waits for a reply (or for its message to be taken): "every REQ
+				// is answered by EOSE and every EVENT by an accepting OK"
+				sim.Violate("C07", "reply-missing", map[string]string{"at": "final-quiescence"}, "connection %s: all readers active and the system quiescent, but the client still waits (it has handed over %d messages and received %d messages)", k.Name, len(k.Sent), len(k.Got))
 				return
 			}
 		}
